@@ -4,12 +4,13 @@ markers in /verif/contracts/*.ann.rs and /verif/spec/*.rs."""
 
 TB_COMMON = [
     'Verus 0.2026.09.13, Z3 4.16, rustc 1.98.1 (the verifier, the solver, the compiler)',
-    'the assembler /verif/tools/{vlib,assemble}.py: extraction rules E1-E5, N1-N3 and the token weave (executable tokens of the verified text are taken from /repo/src on every run; DESIGN 4.1)',
+    'the assembler /verif/tools/{vlib,assemble}.py: extraction rules E1-E5, N1-N4 and the token weave (executable tokens of the verified text are taken from /repo/src on every run; DESIGN 4.1)',
     'assumed contracts on std listed under assumed_contracts (assume_specification / external_body axioms in /verif/contracts/prelude.rs)',
     "rustc's derive(Clone) on Mapping / Repeat is the field-wise expansion written out in the overlay (E2')",
 ]
 TB_MAPPER = TB_COMMON + [
     'N2: `Vec::retain(closure)` is replaced by its documented semantics as an index loop before verification (validated by differential execution in the thorough tier)',
+    'N4: `v.iter().any(closure)` (one site: is_any_modifier) is replaced by the short-circuiting index loop it stands for before verification (validated by the same differential execution, and on every run by the exhaustive bounded comparison anymod_bounded)',
     'derived PartialEq/Hash of KeyCode are structural (obeys_key_model::<KeyCode>)',
 ]
 AS_MAPPER = [
@@ -19,7 +20,7 @@ AS_MAPPER = [
     'termination of every mapper loop is proved (decreases clauses); the universal client is ghost-instrumented code that is never executed',
 ]
 
-AS_ANYMOD = 'ASSUMED contract on key_transforms::is_any_modifier (external_body: its body is `keys.iter().any(closure)`, an iterator adapter without a usable specification in this Verus): it returns true iff the list contains a modifier; compared exhaustively with the real function for every list of length <= 4 over a 10-key alphabet on every run (extras: anymod_bounded; bounded, not a proof)'
+AS_ANYMOD = 'key_transforms::is_any_modifier is verified after rewrite N4 (its body `keys.iter().any(closure)` is written out as the index loop it stands for); that the rewrite preserves behaviour rests on the documented semantics of Iterator::any and is compared with the real function for every list of length <= 4 over a 10-key alphabet on every run (extras: anymod_bounded) and by differential execution in the thorough tier'
 
 TB_LOOP = TB_COMMON + [
     'the loop is verified against the CONTRACT of the Driver trait (ghost state failed/sends/reads_live/kb_pending/tab_pending/tablet/just_switched/interrupts); that RealDriver (mio readiness, EAGAIN -> Busy, ENODEV -> End, nix read/write) meets this contract is assumed, not proved; it is exercised on every run on OS pipes (extras: real_driver_pipes_c10 / _c20; bounded, not a proof)',
